@@ -219,8 +219,16 @@ func readCallers(path string) map[string][]string {
 	}
 	for _, l := range strings.Split(string(b), "\n") {
 		p := strings.Split(l, "\t")
-		if len(p) == 2 {
+		if len(p) >= 2 {
 			out[p[0]] = append(out[p[0]], p[1])
+		}
+		if len(p) == 4 {
+			if n, err := strconv.Atoi(p[2]); err == nil {
+				core.RefSizes[p[0]] = n
+			}
+			if n, err := strconv.Atoi(p[3]); err == nil {
+				core.RefSizes[p[1]] = n
+			}
 		}
 	}
 	return out
